@@ -2,7 +2,7 @@ package props
 
 import "qeepverif/internal/fw"
 
-// Workload families added in rounds 9-15 (DESIGN.md, section 7), appended to the rule texts that the evidence files report.
+// Workload families added in rounds 9-16 (DESIGN.md, section 7), appended to the rule texts that the evidence files report.
 func init() {
 	for id, more := range map[string]string{
 		"C01": "Rounds 9-15: interleaved construction and re-armed interior tensors; wide fan-in (one Concat over 33..130 interior tensors); selections between neighbouring doubles inside a graph; deep ladders run under a CPU-time bound (20 s for milliseconds of work) instead of a wall clock; operand provenances (13 of 16 leaf constructions go through Reshape / Slice / Concat / Patch / adopted gradients / reducers / MatMul with the identity / Scale(1) / Transpose / a back-propagated graph / a no-op BackPropagate); one long-lived Config object for two creations in three; abandoned consumers.",
@@ -25,6 +25,21 @@ func init() {
 		"C18": "Rounds 9-15: location / spread specs, sigma exactly 1 with a non-zero mean, first draws of fresh processes (independence tables), the nil spelling of the scalar shape, long histories (16 x 120 000 / 500 000 four-element draws, none may come back), Full constants that agree in their leading digits, the sign of zero constants.",
 		"C19": "Rounds 9-15: the same object in both roles, value copies, neighbouring doubles, labels of tiny magnitude (0 against 1e-200), column / row / vector rank mixes among the rejected calls; same-length batches dropped after use with a garbage collection after every step.",
 		"C20": "Rounds 9-15: shared optimizer, shared index, private constants, read-shared, first use, storms of 128 / 256 goroutines; shared loss objects over varying batch shapes; refused operations (error texts); private MatMul / Dot with real entries; rounding-sensitive shares; bursts of Transpose / Flatten alternating between shared tensors.",
+	} {
+		fw.ExtendRule(id, more)
+	}
+	for id, more := range map[string]string{
+		"C01": "Round 16: a gradient of one back-propagated graph (or a sum / scaling / reshaping / transposition / Concat / reduction of gradients) is the constant of a later graph, as it is or after ResetGradContext(false); the earlier graph's gradients stay what they were.",
+		"C04": "Round 16: contractions whose terms are 2^40..2^50 and cancel to a small integer (exact in every summation order); exact zeros of one operand against infinities / NaN of the other (0*Inf = NaN).",
+		"C06": "Round 16: Concat of 5..65 operands along every dimension, with leading dimensions smaller than the operand count.",
+		"C07": "Round 16: a result of the operand that is expanded is made a leaf of its own (ResetGradContext(true)) before use and feeds the same root.",
+		"C08": "Round 16: constructors of constants (Eye(1..3), Full / Zeros / Ones of a few shapes) called over and over inside histories, tracked and untracked, next to resets of the tensors they returned earlier.",
+		"C09": "Round 16: every MatMul geometry [m,n] x [n,q] with m, n, q in 1..9 (with batch dimensions on either side) and Dot [m,n], forward and backward.",
+		"C10": "Round 16: the tensor list handed to Concat holds the same tensors in the same order after the call; one recycled dims buffer (and one recycled nested-data buffer) across 3..8 calls of Zeros / Ones / Full / RandU / RandN / TensorOf.",
+		"C11": "Round 16: variants saturated-tanh (pre-activations of magnitude 19.5..24 under targets of 1e5..1e6; the gradient itself is compared, relatively) and non-finite-feature (zero weights meet an infinite feature: loss and parameters are NaN).",
+		"C13": "Round 16: gradients of a batch read only after one or two later, unrelated batches were back-propagated.",
+		"C16": "Round 16: a Forward (validation pass) between the back-propagation and the reading of the parameter gradients; one batch row holding an infinite feature (the other rows keep their finite outputs).",
+		"C17": "Round 16: gradients whose entries are 0 or negative (a row's largest element exactly 0); the pointer holds a caller-side struct embedding the tensor.",
 	} {
 		fw.ExtendRule(id, more)
 	}
